@@ -35,7 +35,8 @@ def plan(pid, tier):
     if pid == "C07":
         return [hx_leg("SA", props=["C07"]), hx_leg("SB", props=["C07"])]
     if pid == "C08":
-        return [hx_leg("SA", props=["C08"]), hx_leg("SB", props=["C08"]), hx_leg("SD", props=["C08"]), hx_leg("SE", props=["C08"])]
+        return [hx_leg("SA", props=["C08"]), hx_leg("SB", props=["C08"]), hx_leg("SD", props=["C08"]), hx_leg("SE", props=["C08"])] + \
+               ([] if q else [hx_leg("CYCLE", profile="rel"), hx_leg("LIMIT", depth=2)])
     if pid == "C09":
         return [hx_leg("SA", props=["C09"], **(dict(L=3, D=8) if q else dict(L=5, D=10))), hx_leg("SB", props=["C09"], **(dict(D=6) if q else dict(D=8)))]
     if pid == "C10":
